@@ -215,6 +215,109 @@ def member_clauses(ctx, sb, shape, tag, msgterm):
     return clauses, dict(idx=idx, sigma=sigma, vk=vk, stake=stake, com=com, total=total, m=m, k=k, phi=phi, bp=bp, msgp=msgp)
 
 
+def bls_batch_body(rep, prog, tmo, failures):
+    """BlsSignature::batch_verify_aggregates itself (the batch pairing oracle of the runs above): the one blst aggregate_verify call it
+    ends with must cover every member of the batch — messages and keys in input order, the signature aggregated from all members'"""
+    from mir2smt import container_models as CM2
+    from mir2smt import models as MM2
+    I = MI.Interp(prog, models=[None, CM2.btreeset_models, CM2.map_models, CM2.container_models, MM2.hof_models, MM2.abs_models, MM2.core_models], unroll=8)
+    I.enum_tables.update(MM2.ENUM_TABLE_EXTRA)
+    I.enum_tables["BLST_ERROR"] = {"BLST_SUCCESS": 0, "BLST_BAD_ENCODING": 1, "BLST_POINT_NOT_ON_CURVE": 2, "BLST_POINT_NOT_IN_GROUP": 3, "BLST_AGGR_TYPE_MISMATCH": 4,
+                                   "BLST_VERIFY_FAIL": 5, "BLST_PK_IS_INFINITY": 6, "BLST_BAD_SCALAR": 7}
+    events = {}
+
+    def models(I, st, caller, func, args, argtys, dest_ty):
+        f = MM2.strip_std_paths(func)
+        if re.search(r"AggregateSignature::aggregate$", f):
+            lst, _ = CM2.seq_of(I, st, args[0])
+            terms = [MM2.deref_all(I, st, x) for x in lst.fields]
+            terms = [t.term if isinstance(t, Abs) else [y for y in t.fields if isinstance(y, Abs)][0].term for t in terms]
+            st.trace = st.trace + (("aggregate", tuple(terms), None),)
+            fn = z3.Function("blst_aggregate_%d" % len(terms), *([z3.IntSort()] * (len(terms) + 1))) if terms else None
+            val = fn(*terms) if terms else z3.IntVal(-1)
+            okv = z3.Bool("blst_aggregate_ok_%d" % len(terms))
+            return MM2.ret(st, EnumV("Result", z3.If(okv, 0, 1), {0: (Abs("blstagg", val),), 1: (EnumV("BLST_ERROR", 1, {}),)}))
+        if re.search(r"Signature::from_aggregate$|AggregateSignature::to_signature$|to_blst_verification_key$", f):
+            v = MM2.deref_all(I, st, args[0])
+            if isinstance(v, Agg) and v.kind == "adt":
+                v = [y for y in v.fields if isinstance(y, Abs)][0]
+            return MM2.ret(st, v)
+        if re.search(r"Signature::aggregate_verify$", f):
+            msgs, _ = CM2.seq_of(I, st, args[2])
+            vks, _ = CM2.seq_of(I, st, args[4])
+            sig = MM2.deref_all(I, st, args[0])
+            mt = [MM2.deref_all(I, st, x).term for x in msgs.fields]
+            vt = [MM2.deref_all(I, st, x).term for x in vks.fields]
+            st.trace = st.trace + (("aggregate_verify", (sig.term, tuple(mt), tuple(vt)), None),)
+            d = z3.Int("blst_aggregate_verify_verdict")
+            st.assume(z3.And(d >= 0, d <= 7))
+            return MM2.ret(st, EnumV("BLST_ERROR", d, {}))
+        if re.search(r"blst_error_to_stm_error$", f):
+            e = MM2.deref_all(I, st, args[0])
+            d = e.discr if z3.is_expr(e.discr) else z3.IntVal(e.discr)
+            return MM2.ret(st, EnumV("Result", z3.If(d == 0, 0, 1), {0: (MI.UNIT,), 1: (Opaque("anyhow::Error"),)}))
+        if re.search(r"Vec::<u8>::as_slice$|<Vec<u8> as Deref>::deref$", f):
+            return MM2.ret(st, MM2.deref_all(I, st, args[0]))
+        if re.match(r"^<(.*) as (Ord|PartialOrd|PartialEq)>::(cmp|partial_cmp|eq|ne|lt|le|gt|ge)$", f) and len(args) == 2:
+            a, b = MM2.deref_all(I, st, args[0]), MM2.deref_all(I, st, args[1])
+            if isinstance(a, Abs) and isinstance(b, Abs):
+                op = f.split("::")[-1]
+                if op == "cmp":
+                    return MM2.ret(st, MM2.ordering(a.term, b.term))
+                if op == "partial_cmp":
+                    return MM2.ret(st, MM2.mk_option(True, MM2.ordering(a.term, b.term)))
+                return MM2.ret(st, {"eq": a.term == b.term, "ne": a.term != b.term, "lt": a.term < b.term, "le": a.term <= b.term, "gt": a.term > b.term, "ge": a.term >= b.term}[op])
+        if re.match(r"^<.* as (Clone|ToOwned|Copy)>::(clone|to_owned)$", f):
+            return MM2.ret(st, MM2.deref_all(I, st, args[0]))
+        return None
+    I.models[0] = models
+    f = prog.find_one(r"bls_multi_signature/signature\.rs.*>::batch_verify_aggregates$")
+    for n in (2, 3):
+        msgs = [Abs("bytes", z3.Int("batch_msg_%d" % i)) for i in range(n)]
+        vks = [Agg("adt", "BlsVerificationKey", (Abs("blstvk", z3.Int("batch_vk_%d" % i)),)) for i in range(n)]
+        sigs = [Agg("adt", "BlsSignature", (Abs("blstsig", z3.Int("batch_sig_%d" % i)),)) for i in range(n)]
+        st = MI.State()
+        fr = I.frame_counter + 1
+        I.frame_counter += 3
+        st.mem[(fr, 0)] = Agg("vec", None, tuple(msgs))
+        st.mem[(fr + 1, 0)] = Agg("vec", None, tuple(vks))
+        st.mem[(fr + 2, 0)] = Agg("vec", None, tuple(sigs))
+        outs = I.call_fn(f, [Ref(fr, 0, ()), Ref(fr + 1, 0, ()), Ref(fr + 2, 0, ())], st)
+        bad = []
+        nacc = 0
+        for o in outs:
+            if o.kind != "return":
+                raise Unencodable("batch_verify_aggregates: %s %s" % (o.kind, o.msg))
+            d = o.value.discr
+            okc = (d == 0) if z3.is_expr(d) else z3.BoolVal(d == 0)
+            av = [e for e in o.state.trace if e[0] == "aggregate_verify"]
+            ag = [e for e in o.state.trace if e[0] == "aggregate"]
+            if not av or not ag:
+                bad.append(z3.And(list(o.pc) + [okc]))
+                continue
+            nacc += 1
+            sig_t, mt, vt = av[-1][1]
+            cov = z3.BoolVal(len(mt) == n and len(vt) == n and len(ag[-1][1]) == n)
+            if len(mt) == n and len(vt) == n and len(ag[-1][1]) == n:
+                cov = z3.And([mt[i] == msgs[i].term for i in range(n)] + [vt[i] == vks[i].fields[0].term for i in range(n)] + [ag[-1][1][i] == sigs[i].fields[0].term for i in range(n)])
+            bad.append(z3.And(list(o.pc) + [okc, z3.Not(cov)]))
+        ob = rep.add(core.Obligation("c01_bls_batch_body_covers_every_member_n%d" % n, "smt",
+                                     "BlsSignature::batch_verify_aggregates on %d members (messages, keys, signatures arbitrary, possibly equal) returns Ok only after one blst aggregate_verify over ALL %d messages and keys in input order with the signature aggregated from ALL %d signatures" % (n, n, n),
+                                     {"paths": len(outs), "vccs": nacc}))
+        r = smt.check([z3.Or(bad)] if bad else [z3.BoolVal(False)], timeout_s=tmo)
+        ob.solver_s = r.seconds
+        ob.status = "discharged" if r.status == "unsat" else "failed" if r.status == "sat" else "inconclusive"
+        if nacc == 0:
+            ob.status = "inconclusive"
+            rep.inconcl("batch_verify_aggregates: no path reaches the pairing")
+        if r.status == "sat":
+            ob.counterexample = {"messages_equal": [str(r.model.eval(msgs[i].term == msgs[j].term, model_completion=True)) for i in range(n) for j in range(i + 1, n)]}
+            failures.append(("bls_batch_body", (n,), ob, r.model, {}))
+        elif r.status != "unsat":
+            rep.inconcl("%s: %s" % (ob.name, r.reason))
+    rep.functions += sorted("%s -> %s" % (k_, v) for k_, v in I.calls_seen.items() if v.startswith("mir:"))
+
+
 def run(tier, seed):
     rep = core.Report("C01", tier, seed)
     rep.trusted_base = ["rustc nightly MIR", "mir2smt interpreter + container/closure/oracle call models", "z3, cvc5 cross-check"]
@@ -333,6 +436,10 @@ def run(tier, seed):
                 failures.append(("batch_pairing", bs, ob, r.model, {}))
     except Unencodable as e:
         rep.inconcl("unencodable: %s" % e)
+    try:
+        bls_batch_body(rep, prog, tmo, failures)
+    except Unencodable as e:
+        rep.inconcl("unencodable (batch_verify_aggregates): %s" % e)
     if ctx is not None:
         rep.functions += sorted("%s -> %s" % (k_, v) for k_, v in ctx.I.calls_seen.items())
     # ---- replay -------------------------------------------------------------------------------------------------
@@ -352,13 +459,16 @@ def run(tier, seed):
         native = {}
         reproduced = False
         try:
-            scen = {"index_below_m": "index_at_m", "distinct": "cross_dup", "quorum": "cross_dup", "leaves_committed": "uncommitted_leaf",
+            scen = {"bls_batch_body": "batch_same_message", "index_below_m": "index_at_m", "distinct": "cross_dup", "quorum": "cross_dup", "leaves_committed": "uncommitted_leaf",
                     "index_won_by_own_signature_and_stake": "uncommitted_leaf", "batch_pairing": "batch_swap", "bls_aggregate_check": "batch_swap"}.get(name)
             if scen:
                 # run the whole battery of forged aggregates through the public API: any acceptance is a native reproduction
-                for q in ("index_at_m", "cross_dup", "uncommitted_leaf", "batch_swap"):
+                for q in ("index_at_m", "cross_dup", "uncommitted_leaf", "batch_swap", "after_quorum", "batch_same_message"):
                     native[q] = native_stm(q)
-                reproduced = "accepted" in native[scen].replace("alone=accepted", "")
+                if scen in ("batch_same_message", "after_quorum"):
+                    reproduced = "VIOLATED" in native[scen]
+                else:
+                    reproduced = "accepted" in native[scen].replace("alone=accepted", "") or "VIOLATED" in native["after_quorum"] or (name.startswith("batch") and "VIOLATED" in native["batch_same_message"])
                 if name == "index_won_by_own_signature_and_stake" and not reproduced:
                     native["lost_index"] = native_stm("lost_index")
                     reproduced = "VIOLATED" in native["lost_index"]
